@@ -132,6 +132,16 @@ def _is_ast_compare(repo: Repo, fn: Func) -> bool:
             for x in ast.walk(v):
                 if isinstance(x, ast.Compare) and len(x.ops) == 1 and isinstance(x.ops[0], (ast.Eq, ast.NotEq)):
                     t = norm(x)
+                    # the two dumps held in locals: `dump_a = ast.dump(ast.parse(a))` ... `return dump_a == dump_b`
+                    sides = []
+                    for side in (x.left, x.comparators[0]):
+                        if isinstance(side, ast.Name):
+                            vs = [a_.value for a_ in body_nodes(fn.node) if isinstance(a_, ast.Assign) and any(isinstance(t_, ast.Name) and t_.id == side.id for t_ in a_.targets)]
+                            sides.append(norm(vs[0]) if len(vs) == 1 else norm(side))
+                        else:
+                            sides.append(norm(side))
+                    if all(("ast.dump" in s_ and "parse" in s_) or "literal_eval" in s_ for s_ in sides):
+                        ok = True
                     if ("ast.dump" in t and "parse" in t) or "literal_eval" in t or "_token_of" in t or "value_to_token" in t:
                         ok = True
             if isinstance(v, ast.Name):
@@ -291,6 +301,12 @@ def utf8(repo: Repo, rep):
         enc = kws.get("encoding")
         lossy = "errors" in kws and isinstance(kws["errors"], ast.Constant) and kws["errors"].value in ("replace", "ignore")
         inp = kws.get("input")
+        if isinstance(inp, ast.Name):
+            # the bytes held in a local: `input_bytes = text.encode("utf-8")`
+            cfg_f = cfg_of(f)
+            at = cfg_f.nodes_containing(c)
+            if at:
+                inp = resolve_alias(cfg_f, at[0], inp)
         explicit_in = inp is None or (isinstance(inp, ast.Call) and isinstance(inp.func, ast.Attribute) and inp.func.attr == "encode" and inp.args and isinstance(inp.args[0], ast.Constant) and str(inp.args[0].value).lower().replace("-", "") == "utf8")
         if lossy or (textmode and not (isinstance(enc, ast.Constant) and str(enc.value).lower().replace("-", "") == "utf8")) or (not textmode and not explicit_in):
             rep.violation("R-UTF8", f, c, "the format-command is fed/read with a locale-dependent or lossy text conversion instead of explicit UTF-8 bytes: under LC_ALL=C every non-ASCII character of the test file is written back as `?`", construct="subprocess-encoding")
